@@ -13,14 +13,19 @@ def _imports():
     return Environment, Interrupt
 
 
-def run_program(env, mon, shape, sorts, Interrupt, initial_time=0, delays=None):
+def run_program(env, mon, shape, sorts, Interrupt, initial_time=0, delays=None, bare=False, fixed=None):
+    """bare: no probe callbacks at all - occurrences are observed only where the program's own processes resume
+    (a timeout by the process that waits for it, a shared event by its waiters, a termination by its joiners)"""
     scripts = shape['scripts']
     top = shape['top']
     nshared = 1 + max([i[1] for s in scripts for i in s if i[0] in ('E', 'W')] or [0])
     shared = [env.event() for _ in range(nshared)]
     procs, pend, term, nvar = {}, {}, {}, [0]
+    shared_occ = {}
 
     def delay(pi=None, k=None):
+        if fixed and '%d.%d' % (pi, k) in fixed:
+            return fixed['%d.%d' % (pi, k)]         # long programs: most delays concrete, a few symbolic
         if delays is not None:
             # the same program run several times in one symbolic run: delays identified by instruction
             if (pi, k) not in delays:
@@ -40,11 +45,13 @@ def run_program(env, mon, shape, sorts, Interrupt, initial_time=0, delays=None):
         o = mon.trig('start%d' % pi, env.now, 0)
         pend[pi] = []
         p = env.process(body(pi, o))
-        p.callbacks.insert(0, term_probe(pi))
+        if not bare:
+            p.callbacks.insert(0, term_probe(pi))
         procs[pi] = p
 
     def body(pi, start):
         mon.seen(start)
+        waiting_for = None
         for k_ins, ins in enumerate(scripts[pi]):
             op = ins[0]
             try:
@@ -52,8 +59,14 @@ def run_program(env, mon, shape, sorts, Interrupt, initial_time=0, delays=None):
                     d = delay(pi, k_ins)
                     ev = env.timeout(d)
                     o = mon.trig('timeout%d' % pi, env.now + d, 1)
-                    ev.callbacks.append(mon.probe(o))
-                    yield ev
+                    if bare:
+                        waiting_for = o
+                        yield ev
+                        waiting_for = None
+                        mon.seen(o)
+                    else:
+                        ev.callbacks.append(mon.probe(o))
+                        yield ev
                 elif op == 'S':
                     spawn(ins[1])
                 elif op == 'I':
@@ -66,15 +79,31 @@ def run_program(env, mon, shape, sorts, Interrupt, initial_time=0, delays=None):
                     ev = shared[ins[1]]
                     if not ev.triggered:
                         o = mon.trig('event%d' % ins[1], env.now, 1)
-                        ev.callbacks.insert(0, mon.probe(o))
+                        if bare:
+                            shared_occ[ins[1]] = o
+                            if not ev.callbacks:
+                                o.void = True          # nobody waits: its processing is not observable from the program
+                        else:
+                            ev.callbacks.insert(0, mon.probe(o))
                         ev.succeed(pi)
                 elif op == 'W':
+                    was = shared[ins[1]].processed
                     yield shared[ins[1]]
+                    o = shared_occ.get(ins[1])
+                    if bare and o is not None and not o.seen and not was:
+                        mon.seen(o)
                 elif op == 'J':
                     tgt = procs.get(ins[1])
                     if tgt is not None:
+                        was = tgt.processed
                         yield tgt
+                        o = term.get(ins[1])
+                        if bare and o is not None and not o.seen and not was:
+                            mon.seen(o)
             except Interrupt as it:
+                if waiting_for is not None:
+                    waiting_for.void = True            # abandoned: nobody observes it any more
+                    waiting_for = None
                 o = pend[pi].pop(0)
                 check('c01.intr-fifo', it.cause == o.id)
                 mon.seen(o)
@@ -82,6 +111,8 @@ def run_program(env, mon, shape, sorts, Interrupt, initial_time=0, delays=None):
         for o in pend[pi]:
             o.void = True
         term[pi] = mon.trig('term%d' % pi, env.now, 1)
+        if bare and not env.active_process.callbacks:
+            term[pi].void = True                       # nobody joins (so far): not observable from the program
 
     for pi in range(top):
         spawn(pi)
@@ -97,7 +128,11 @@ def h_prog(cfg):
     else:
         env = Environment()
     mon = Monitor(env)
-    run_program(env, mon, cfg['shape'], cfg['sorts'], Interrupt)
+    run_program(env, mon, cfg['shape'], cfg['sorts'], Interrupt, bare=bool(cfg.get('bare')), fixed=cfg.get('fixed'))
+    if cfg.get('fixed'):
+        cover('long-agenda')
+    if cfg.get('bare'):
+        cover('observed-without-probes')
     try:
         if cfg.get('until') is not None:
             c = cfg['until']
@@ -206,10 +241,23 @@ def jobs(tier, seed):
         for sorts in (sortss if si < len(CORE_SHAPES) else [sortss[si % 3]]):
             js.append({'harness': 'prog', 'cfg': {'shape': sh, 'sorts': sorts, 'until': None},
                        'weight': 4 ** nT, 'opts': {'max_seconds': 60 if tier == 'quick' else 400}})
+        if si % 3 == 0:
+            js.append({'harness': 'prog', 'cfg': {'shape': sh, 'sorts': sortss[(si + 1) % 3], 'until': None, 'bare': True},
+                       'weight': 4 ** nT, 'opts': {'max_seconds': 60 if tier == 'quick' else 400}})
         # numeric until-stop at a concrete instant the symbolic delays can hit
         if si % 2 == 0:
             js.append({'harness': 'prog', 'cfg': {'shape': sh, 'sorts': sortss[si % 3], 'until': 2},
                        'weight': 4 ** nT, 'opts': {'max_seconds': 60 if tier == 'quick' else 300}})
+    # long agendas: 8 processes x 3 timeouts (24 entries on the heap at once, many ties among the concrete delays),
+    # three of the delays symbolic
+    lrng = random.Random(77 + int(seed))
+    for variant in range(2 if tier == 'quick' else 6):
+        sh = {'top': 8, 'scripts': [[['T'], ['T'], ['T']] for _ in range(8)]}
+        keys = ['%d.%d' % (pi, k) for pi in range(8) for k in range(3)]
+        symk = set(lrng.sample(keys, 3))
+        fixed = {k: lrng.choice([0, 1, 1, 2, 2, 3, 5]) for k in keys if k not in symk}
+        js.append({'harness': 'prog', 'cfg': {'shape': sh, 'sorts': 'int', 'until': None, 'fixed': fixed, 'bare': variant % 2 == 1},
+                   'weight': 300, 'opts': {'max_seconds': 60 if tier == 'quick' else 300, 'max_paths': 6000}})
     for si, sh in enumerate(CORE_SHAPES[:6]):
         js.append({'harness': 'prog', 'cfg': {'shape': sh, 'sorts': ('int', 'real')[si % 2], 'until': None, 'tau': True},
                    'weight': 50})
@@ -223,10 +271,11 @@ META = {
             'shape; non-trivial = the program triggered at least two occurrences, or a negative delay was refused',
     'required_labels': ['c01.time', 'c01.order', 'c01.once', 'c01.monotonic', 'c01.all-seen',
                         'c01.neg-refused-only-if-negative', 'c01.until-now'],
-    'required_covers': ['nontrivial', 'interrupt-delivered', 'until-stop', 'neg-refused', 'initial-time'],
+    'required_covers': ['nontrivial', 'interrupt-delivered', 'until-stop', 'neg-refused', 'initial-time', 'observed-without-probes', 'long-agenda'],
     'bounds': {
         'quick': 'program shapes: 11 core + 45 seeded random, <= 3 processes, <= 5 timeouts (<= 8 instructions) per program; '
-                 'delays unbounded (>= 0) Int / Real / mixed; until-stop at the concrete instant 2',
+                 'delays unbounded (>= 0) Int / Real / mixed; until-stop at the concrete instant 2; a third of the programs also observed without probe callbacks; '
+                 '2 long programs (8 processes x 3 timeouts, 21 concrete delays with ties, 3 symbolic)',
         'thorough': 'program shapes: 11 core + 160 seeded random, <= 3 processes, <= 6 timeouts; delays unbounded',
     },
     'assumptions': ['interrupt causes and event values are concrete tags',
